@@ -22,20 +22,20 @@ open BufProofs.C08 (NoCollision)
     was computed from, and the dependency digests declared by the marker are a permutation of
     the honest ones.  Direct use of C08 `digest_sensitive`.
 
-    Hypotheses: `BucketOK` = paths distinct and validated (what a real bucket guarantees);
-    `NoNewline` = no path contains U+000A.  The `NoNewline` hypothesis is EXACTLY the recorded
-    C08 known finding `digest-collision-newline-in-path` (`C08.newline_collision_counterexample`):
-    a `.proto` path containing a line feed can spell a second manifest line, so two different
-    file sets can have the same b5 digest without any hash collision; for such entries the gate
-    is not sound and this theorem does not apply.  That the dependency digests are b5 is not a
-    hypothesis: it follows from the digest computations having succeeded. -/
+    Hypotheses: `BucketOK` = paths distinct and validated (what a real bucket guarantees).
+    There is NO line-feed hypothesis any more: since the fix that makes `bufcas.NewFileNode`
+    reject a path containing U+000A (C08, handoff/C08-newline-fix.diff) a successful digest
+    computation implies that no module-file path contains a line feed, and both computations
+    compared here succeeded (`hload` is a hit, `hpin`).  Before the fix the gate was NOT sound for
+    such entries (`C08.newline_collision_counterexample`: a `.proto` path containing a line feed
+    could spell a second manifest line).  That the dependency digests are b5 is not a
+    hypothesis either: it follows from the digest computations having succeeded. -/
 theorem digest_gate_sound (H : Bytes → Digest) (pinned : MDigest)
     (depsOf : Content → Option (List MDigest)) (sides : List Str) (entry : Mem)
     (got : List (Str × Content)) (honest : BufModel.Digest.Bucket) (hdeps : List MDigest)
     (hload : loadD H pinned depsOf sides entry = .hit got)
     (hpin : moduleB5 H honest hdeps = .ok pinned)
     (ok1 : BucketOK (toBucket (entryFiles entry))) (ok2 : BucketOK honest)
-    (n1 : NoNewline (toBucket (entryFiles entry))) (n2 : NoNewline honest)
     (hH : ∀ tok deps, entry.find markerPath = some tok → depsOf tok = some deps →
       NoCollision H (b5Inputs H (toBucket (entryFiles entry)) deps ++ b5Inputs H honest hdeps)) :
     got = servedFiles (entryFiles entry) ∧
@@ -43,10 +43,7 @@ theorem digest_gate_sound (H : Bytes → Digest) (pinned : MDigest)
     (∀ e, e ∈ filterModule (toBucket (entryFiles entry)) ↔ e ∈ filterModule honest) ∧
     ∃ tok deps, entry.find markerPath = some tok ∧ depsOf tok = some deps ∧ deps.Perm hdeps := by
   obtain ⟨tok, deps, hm, hd, _, hdig, hgot⟩ := loadD_hit_inv H pinned depsOf sides entry got hload
-  have hb1 := deps_b5_of_ok ok1 hdig
-  have hb2 := deps_b5_of_ok ok2 hpin
-  have hs := C08.digest_sensitive H _ honest deps hdeps ok1 ok2 n1 n2 hb1 hb2 (hH tok deps hm hd)
-    (hdig.trans hpin.symm)
+  have hs := C08.digest_sensitive H _ honest deps hdeps ok1 ok2 (hH tok deps hm hd) pinned hdig hpin
   refine ⟨hgot, ?_, hs.1, tok, deps, hm, hd, hs.2⟩
   intro e
   rw [hgot, toBucket_servedFiles]
@@ -57,9 +54,9 @@ theorem digest_gate_sound_tar (H : Bytes → Digest) (pinned : MDigest)
     (depsOf : Content → Option (List MDigest)) (sides : List Str) (t : Option (Option Mem))
     (got : List (Str × Content)) (honest : BufModel.Digest.Bucket) (hdeps : List MDigest)
     (hload : (loadTarD H pinned depsOf sides t).1 = .hit got)
-    (hpin : moduleB5 H honest hdeps = .ok pinned) (ok2 : BucketOK honest) (n2 : NoNewline honest)
+    (hpin : moduleB5 H honest hdeps = .ok pinned) (ok2 : BucketOK honest)
     (hent : ∀ e, t = some (some e) →
-      BucketOK (toBucket (entryFiles e)) ∧ NoNewline (toBucket (entryFiles e)) ∧
+      BucketOK (toBucket (entryFiles e)) ∧
       ∀ tok deps, e.find markerPath = some tok → depsOf tok = some deps →
         NoCollision H (b5Inputs H (toBucket (entryFiles e)) deps ++ b5Inputs H honest hdeps)) :
     ∀ e, e ∈ toBucket got ↔ e ∈ filterModule honest := by
@@ -70,17 +67,20 @@ theorem digest_gate_sound_tar (H : Bytes → Digest) (pinned : MDigest)
     cases o with
     | none => cases hload
     | some e =>
-      obtain ⟨ok1, n1, hH⟩ := hent e rfl
-      exact (digest_gate_sound H pinned depsOf sides e got honest hdeps hload hpin ok1 ok2 n1 n2 hH).2.1
+      obtain ⟨ok1, hH⟩ := hent e rfl
+      exact (digest_gate_sound H pinned depsOf sides e got honest hdeps hload hpin ok1 ok2 hH).2.1
 
 /-- `.mismatch` of `loadD` also covers "the digest computation itself failed" (`LoadResult` has
-    no constructor for it).  On a well-formed entry whose marker declares b5 digests that case
-    does not arise: `.mismatch` means a digest WAS computed and differs from the pinned one —
-    the `DigestMismatchError` of `checkDigest`. -/
+    no constructor for it).  On a well-formed entry whose marker declares b5 digests and whose
+    module files have no line feed in their paths (`nl1`: since the C08 line-feed fix such a path
+    makes the digest computation itself fail — `C08.digest_rejects_line_feed`) that case does not
+    arise: `.mismatch` means a digest WAS computed and differs from the pinned one — the
+    `DigestMismatchError` of `checkDigest`. -/
 theorem loadD_mismatch_is_digest_mismatch (H : Bytes → Digest) (pinned : MDigest)
     (depsOf : Content → Option (List MDigest)) (sides : List Str) (entry : Mem)
     (h : loadD H pinned depsOf sides entry = .mismatch)
     (ok1 : BucketOK (toBucket (entryFiles entry)))
+    (nl1 : NoNewline (filterModule (toBucket (entryFiles entry))))
     (hb5 : ∀ tok deps, entry.find markerPath = some tok → depsOf tok = some deps →
       deps.all (fun d => d.type = .b5) = true) :
     ∃ tok deps actual, entry.find markerPath = some tok ∧ depsOf tok = some deps ∧
@@ -101,10 +101,10 @@ theorem loadD_mismatch_is_digest_mismatch (H : Bytes → Digest) (pinned : MDige
       · split at h
         · cases h
         · rename_i hne
-          refine ⟨tok, deps, _, rfl, hd, BufModel.Digest.moduleB5_eq H _ deps ok1 (hb5 tok deps hm hd), ?_⟩
+          refine ⟨tok, deps, _, rfl, hd, BufModel.Digest.moduleB5_eq H _ deps ok1 nl1 (hb5 tok deps hm hd), ?_⟩
           intro e
           apply hne
-          rw [BufModel.Digest.moduleB5_eq H _ deps ok1 (hb5 tok deps hm hd), e]
+          rw [BufModel.Digest.moduleB5_eq H _ deps ok1 nl1 (hb5 tok deps hm hd), e]
 
 /-- complete_entry_hits: an entry that holds exactly the honest payload under files/ (every
     honest file with its content, nothing else under files/ — keys outside files/ are
@@ -209,8 +209,9 @@ theorem complete_payload_entry_hits (H : Bytes → Digest) (pinned : MDigest)
         declares `hdeps`, `markerOtherDeps` declares some `odeps` that is not a permutation of
         `hdeps`, every other byte string is not a valid marker;
       * SHAKE256 does not collide on the strings hashed (`NoCollision`, C08's hypothesis), paths
-        are distinct, validated (`BucketOK`) and newline-free (`NoNewline` — the recorded C08
-        known finding, see `digest_gate_sound`);
+        are distinct and validated (`BucketOK`); no line-feed hypothesis (see `digest_gate_sound`:
+        an entry with a line feed in a module-file path has no digest, which both readers report
+        as `.mismatch`);
       * `docOnlyBufMd`: `Cache.isModuleFile` knows only `buf.md` as documentation file while
         the real storage matcher takes the first PRESENT path of `buf.md, README.md,
         README.markdown`; the two agree exactly when that choice is `buf.md` or nothing, i.e.
@@ -231,7 +232,6 @@ theorem load_abstracts_loadD (H : Bytes → Digest) (pinned : MDigest)
     (hinv : ∀ tok, markerValid tok = false → depsOf tok = none)
     (hnp : ¬ odeps.Perm hdeps)
     (okE : BucketOK (toBucket (entryFiles entry))) (okH : BucketOK (toBucket exp.files))
-    (nE : NoNewline (toBucket (entryFiles entry))) (nH : NoNewline (toBucket exp.files))
     (docE : docOnlyBufMd (entryFiles entry) = true) (docH : docOnlyBufMd exp.files = true)
     (hH : ∀ deps, deps = hdeps ∨ deps = odeps →
       NoCollision H (b5Inputs H (toBucket (entryFiles entry)) deps ++ b5Inputs H (toBucket exp.files) hdeps)) :
@@ -247,15 +247,13 @@ theorem load_abstracts_loadD (H : Bytes → Digest) (pinned : MDigest)
       ∀ e, e ∈ filterModule (toBucket (entryFiles entry)) ↔ e ∈ filterModule (toBucket exp.files) := by
     rw [sameSet_iff, toBucket_mem_iff, hgot, toBucket_servedFiles, ← servedFiles_eq _ docH neH,
       toBucket_servedFiles]
-  have hb2 := deps_b5_of_ok okH hpin
   -- digest equality ⇒ file sets and deps equal (C08 sensitivity)
   have hsens : ∀ deps, deps = hdeps ∨ deps = odeps →
       moduleB5 H (toBucket (entryFiles entry)) deps = .ok pinned →
       (∀ e, e ∈ filterModule (toBucket (entryFiles entry)) ↔ e ∈ filterModule (toBucket exp.files)) ∧
         deps.Perm hdeps := by
     intro deps hdd hdig
-    exact C08.digest_sensitive H _ _ deps hdeps okE okH nE nH (deps_b5_of_ok okE hdig) hb2
-      (hH deps hdd) (hdig.trans hpin.symm)
+    exact C08.digest_sensitive H _ _ deps hdeps okE okH (hH deps hdd) pinned hdig hpin
   cases hm : entry.find markerPath with
   | none =>
     unfold loadD load
@@ -350,7 +348,7 @@ theorem exDepsOf_rejects_invalid : ∀ tok, markerValid tok = false → exDepsOf
 set_option maxRecDepth 1000000 in
 theorem exPinned_is_digest : moduleB5 C08.toyH (toBucket exExpD.files) exDeps = .ok exPinned := by
   unfold exPinned
-  rw [BufModel.Digest.moduleB5_eq C08.toyH _ exDeps ⟨by decide, by decide⟩ (by decide)]
+  rw [BufModel.Digest.moduleB5_eq C08.toyH _ exDeps ⟨by decide, by decide⟩ (by unfold NoNewline; decide) (by decide)]
 
 set_option maxRecDepth 1000000 in
 set_option maxHeartbeats 4000000 in
@@ -358,25 +356,22 @@ set_option maxHeartbeats 4000000 in
     (toy hash; an entry on which a hit occurs, see the next example). -/
 theorem load_abstracts_loadD_nonvacuous :
     BucketOK (toBucket (entryFiles exGood)) ∧ BucketOK (toBucket exExpD.files) ∧
-    NoNewline (toBucket (entryFiles exGood)) ∧ NoNewline (toBucket exExpD.files) ∧
     docOnlyBufMd (entryFiles exGood) = true ∧ docOnlyBufMd exExpD.files = true ∧
     ¬ ([] : List MDigest).Perm exDeps ∧
     ∀ deps, deps = exDeps ∨ deps = [] →
       NoCollision C08.toyH (b5Inputs C08.toyH (toBucket (entryFiles exGood)) deps ++
         b5Inputs C08.toyH (toBucket exExpD.files) exDeps) := by
-  refine ⟨⟨by decide, by decide⟩, ⟨by decide, by decide⟩, by unfold NoNewline; decide,
-    by unfold NoNewline; decide, by decide, by decide, by simp [exDeps], ?_⟩
+  refine ⟨⟨by decide, by decide⟩, ⟨by decide, by decide⟩, by decide, by decide, by simp [exDeps], ?_⟩
   rintro deps (rfl | rfl) <;> (unfold NoCollision; decide)
 
 -- the theorem applies to it
 example : loadD C08.toyH exPinned exDepsOf (exExpD.sides.map (·.1)) exGood = load exExpD exGood :=
   load_abstracts_loadD C08.toyH exPinned exDepsOf exExpD exDeps [] exGood exPinned_is_digest
     (by decide) (by decide) exDepsOf_rejects_invalid
-    load_abstracts_loadD_nonvacuous.2.2.2.2.2.2.1
+    load_abstracts_loadD_nonvacuous.2.2.2.2.1
     load_abstracts_loadD_nonvacuous.1 load_abstracts_loadD_nonvacuous.2.1
     load_abstracts_loadD_nonvacuous.2.2.1 load_abstracts_loadD_nonvacuous.2.2.2.1
-    load_abstracts_loadD_nonvacuous.2.2.2.2.1 load_abstracts_loadD_nonvacuous.2.2.2.2.2.1
-    load_abstracts_loadD_nonvacuous.2.2.2.2.2.2.2
+    load_abstracts_loadD_nonvacuous.2.2.2.2.2
 
 -- an entry without marker is a miss
 example : kindOf (loadD C08.toyH exPinned exDepsOf (exExpD.sides.map (·.1)) exGood.tail) = 0 := by
@@ -436,7 +431,7 @@ theorem load_abstraction_readme_counterexample :
       (cexExp.sides.map (·.1)) cexEntry) = 2 := by
   refine ⟨?_, by decide, by decide, by decide⟩
   unfold cexPinned
-  rw [BufModel.Digest.moduleB5_eq C08.toyH _ [] ⟨by decide, by decide⟩ (by decide)]
+  rw [BufModel.Digest.moduleB5_eq C08.toyH _ [] ⟨by decide, by decide⟩ (by unfold NoNewline; decide) (by decide)]
 
 /-- The writer machine composed with the REAL digest gate: in every reachable state of any number
     of concurrent / crashed / failed stores, started from any entry without a valid marker, a
